@@ -210,7 +210,8 @@ pub fn all() -> Vec<PropInfo> {
         shards: (8, 16),
         watchdog: (900, 7200),
         rule: "a generated in-range command (every subcommand, presets, -c/--counts, -H, -t 0..16, -k/-m/-w/-s/-c/-v/-m values, --acgt, --alt-input, stdin) over generated inputs is executed through the built executable and related to a second execution: the library called with the documented meaning of the options (differential), another preset (equal after delimiter replacement), header toggled (exactly one more line), another thread count (same bytes / same line multiset), counts toggled (per-row normalisation within 5e-7), --acgt toggled (same table after decoding), stdin instead of a file, the same command line through the Python package's entry point pykmertools.run_cli (py/entry.py); \
-               plus a fixed list of values just outside every documented range (diagnostic on stderr, no output location created, no panic); non-trivial = >= 2 records and >= 2 options differing from their defaults; distinct by hash of the case",
+               options are written in a generated spelling (-k 5, --k-size 5, --k-size=5, -k5) and, in a quarter of the cases, options at their documented default are left out; \
+               plus a fixed list of values just outside every documented range and a generated leg (a random accepted command in a random spelling with one of k, m, w, bin size, bin count, memory pushed outside its range: below, just above, far above incl. values that wrap into the range when truncated to 8/16/32 bits, beyond u64, negative, non-numeric): diagnostic on stderr, no output location created, no panic; non-trivial = >= 2 records and >= 2 options differing from their defaults; distinct by hash of the case",
         assumptions: &["exit status of refusals is not constrained (the statement does not; the w <= m refusal exits 0)", "comp cgr is always given an explicit -v (its default size is not documented)"],
         abort_is_violation: false,
     },
